@@ -34,6 +34,11 @@ func init() {
 		one("fsm_duplicate_pattern_priority", false, [][2]string{{"a.b", ""}, {"*.b", ""}, {"a.b", ""}}, 0, "a.b", nil)
 		tmpl("template_dollar_in_reference", "*.*", "$1$2", "foo.bar")
 		tmpl("template_dollar_escape", "*", "$$1", "foo")
+		one("template_unicode_letter_after_ref", false, [][2]string{{`^([^.]*)$`, ""}}, 0, "foo", func(c *rawCfg) {
+			c.rules[0].matchType = sp("regex")
+			c.rules[0].name = "x"
+			c.rules[0].labels = [][2]string{{"lbl", "$1é"}}
+		})
 		tmpl("template_has_percent", "*", "50%s-$1", "foo")
 		tmpl("template_ref_prefix_of_ref", "*.a", "$1-$11", "foo.a")
 		tmpl("template_brace_mismatch", "*", "${1", "foo")
